@@ -328,6 +328,14 @@ class CfgChain:
         if not stmts:
             raise Refuse("parse_config_file: a path through the chain stores nothing")
         st, rest = stmts[0], stmts[1:]
+        # `kwargs.setdefault("k", <literal>)` directly followed by `kwargs["k"] = ...`: no effect
+        if rest and isinstance(st, ast.Expr) and isinstance(st.value, ast.Call) \
+                and ast.unparse(st.value.func) == f"{self.kwv}.setdefault" and len(st.value.args) == 2 \
+                and not st.value.keywords and isinstance(st.value.args[0], ast.Constant) \
+                and isinstance(rest[0], ast.Assign) and len(rest[0].targets) == 1 \
+                and ast.unparse(rest[0].targets[0]) == f"{self.kwv}[{st.value.args[0].value!r}]":
+            const(st.value.args[1])
+            return self.block(rest, tr, depth)
         if isinstance(st, ast.Assign) and len(st.targets) == 1 and isinstance(st.targets[0], ast.Name) \
                 and st.targets[0].id == self.valv:
             if tr == "TVerbatim" and self.is_split_lines(st.value):
